@@ -387,6 +387,16 @@ def sat_jobs(tier, seed, for_extract=False):
         add('n3-big-universe', 3, ['LLL', 'LPW', 'RLD', 'OlP', 'QWL', 'RrL', 'UlO', 'WQP'], ['012', '011', '001'], 'M', 2, 1, 0, 3)
         add('n4', 4, ['LLLL', 'RRRR', 'LRLR', 'RLLL', 'LLLR', 'LWPD', 'QOrR'], ['0123', '3210', '0101'], 'F', 3, 0, 1, 3)
         add('n5', 5, ['LLLLL'], ['01234', '01201'], 'F', 4, 0, 1, 5)
+    # wide expansions: many alternatives from few leaves
+    wide = ['|0|1|2|3|4|5|6|78', '&|0|12|3|45', '&|0|12|3|4|56', '|&01|&23|&45|&67|89', '&&|01|23|4|56', '||||||||012345678', '&|01&|23&|45|67']
+    wj = []
+    for enc in wide:
+        n = sum(ch.isdigit() for ch in enc)
+        idn = ''.join(str(i) for i in range(n))
+        for kinds in (['L' * n] if not thorough else ['L' * n, ('LR' * 5)[:n], ('LPW' * 4)[:n]]):
+            wj.append([enc, kinds, idn, 'M', 2, 0, 1] if not for_extract else [enc, kinds, idn, 'M'])
+            wj.append([enc, kinds, idn[::-1], 'F', 3, 0, 1] if not for_extract else [enc, kinds, idn[::-1], 'F'])
+    groups.append(('wide', wj, 9, 3, 6))
     return groups
 
 
